@@ -15,7 +15,7 @@ func init() {
 	fw.Register(&fw.Check{
 		ID:    "C04",
 		Level: "exploration",
-		Rule: "for every accepted input (atom catalogue, /repo testdata, llvm-stress, generated modules in reference-torture mode, and their shuffled variants) the object graph returned by asm.ParseString is walked by reflection: every reachable global/function/alias/ifunc must be an element of the module's lists, every param/block/instruction/terminator an object of the enclosing function, every blockaddress block a listed block of the named function, every named type the TypeDefs entry of that name, every comdat/attribute group/numbered metadata node the listed definition; Parent links must agree with containment. " +
+		Rule: "for every accepted input (atom catalogue, /repo testdata, llvm-stress, generated modules in reference-torture mode, and their shuffled variants) the object graph returned by asm.ParseString is walked by reflection: every reachable global/function/alias/ifunc must be an element of the module's lists, every param/block/instruction/terminator an object of the enclosing function, every blockaddress block a listed block of the named function, every named type the TypeDefs entry of that name, every comdat/attribute group/numbered metadata node the listed definition; Parent links must agree with containment; the blockaddress(@f, %b) tokens of the printed module must be the multiset of those of the input (a block address bound to another block of the right function is a binding fault). " +
 			"non-trivial = a module in which at least one reference slot was checked; distinct by digest of the input",
 		Gen:           genC04,
 		MinNontrivial: 100,
